@@ -54,6 +54,10 @@ def run(chk: Check, proj: Project) -> None:
     s4(chk, proj, w)
     s5_merge_repeated(chk, proj, w)
     s6_pipeline(chk, proj, w)
+    from . import generic
+
+    chk.rule("S7", "render routes forward every shared parameter (escape_slots_content among them), generic form (shared with C01-S10)")
+    generic.forwarding(chk, "S7", proj, w.cg, ["component", "attributes"], floor=4)
 
 
 def s6_pipeline(chk: Check, proj: Project, w) -> None:
